@@ -97,9 +97,12 @@ def parseDeclaration (comps : List Tok) : Option (List Tok) := parseDecl (comps.
 
 /-! ## minifyTokens -/
 
-def num (o : Opts) (s : List Char) : List Char := if o.keepCSS2 then decimal0 s else number0 s
+/-- `minifyNumber`: `minify.Decimal` with KeepCSS2 unless the lexeme already has an exponent, else `minify.Number` -/
+def num (o : Opts) (s : List Char) : List Char :=
+  if o.keepCSS2 && !s.any isExpChar then decimal0 s else number0 s
 
-def zeroTail (o : Opts) (s : List Char) : Nat := if o.keepCSS2 then zeroTailDecimal s else zeroTailNumber s
+def zeroTail (o : Opts) (s : List Char) : Nat :=
+  if o.keepCSS2 && !s.any isExpChar then zeroTailDecimal s else zeroTailNumber s
 
 def isLetter (c : Char) : Bool := ('a' ≤ c && c ≤ 'z') || ('A' ≤ c && c ≤ 'Z')
 
@@ -503,13 +506,14 @@ def urScanEnd : List Char → Nat → Nat
   | [], e => e
   | c :: r, e => urScanEnd r (e * 16 + (hexDigitVal c).getD 0)
 
-/-- the `[start, end]` pair the code computes for one unicode-range lexeme (`U+…`) -/
-def urBounds (data : List Char) : Nat × Nat :=
+/-- the `[start, end]` pair the code computes for one unicode-range lexeme (`U+…`); `none` = reversed range
+    (`end < start`): the whole value is returned unchanged -/
+def urBounds (data : List Char) : Option (Nat × Nat) :=
   let (start, iw, rest) := urScanStart (data.drop 2) 2 0 0
-  if iw != 0 then (start, start + 16 ^ (data.length - iw) - 1)
+  if iw != 0 then some (start, start + 16 ^ (data.length - iw) - 1)
   else match rest with
-    | '-' :: r => let e := urScanEnd r 0; (start, if e ≤ start then start else e)
-    | _ => (start, start)
+    | '-' :: r => let e := urScanEnd r 0; if e < start then none else some (start, e)
+    | _ => some (start, start)
 
 /-- insertion into a list sorted by the first component (stable: behind equal keys).  `sort.Slice` is not
     stable; the model is tied on inputs without equal starts or where the order does not matter. -/
@@ -519,13 +523,17 @@ def insertRange (x : Nat × Nat) : List (Nat × Nat) → List (Nat × Nat)
 
 def sortRanges (l : List (Nat × Nat)) : List (Nat × Nat) := l.foldl (fun acc x => insertRange x acc) []
 
-/-- the merge loop: `i` advances after every step, also after a merge -/
+/-- the merge loop: the current range absorbs its successors as long as they are contained in it or touch it -/
+def mergeInto (a : Nat × Nat) : List (Nat × Nat) → List (Nat × Nat)
+  | [] => [a]
+  | b :: r =>
+    if b.2 ≤ a.2 then mergeInto a r
+    else if b.1 ≤ a.2 + 1 then mergeInto (a.1, b.2) r
+    else a :: mergeInto b r
+
 def mergeRanges : List (Nat × Nat) → List (Nat × Nat)
-  | a :: b :: r =>
-    if b.2 ≤ a.2 then a :: mergeRanges r
-    else if b.1 ≤ a.2 + 1 then (a.1, b.2) :: mergeRanges r
-    else a :: mergeRanges (b :: r)
-  | l => l
+  | [] => []
+  | a :: r => mergeInto a r
 
 def hexUpper (n : Nat) : List Char :=
   (Nat.toDigits 16 n).map fun c => if 'a' ≤ c && c ≤ 'f' then Char.ofNat (c.toNat - 32) else c
@@ -558,7 +566,9 @@ def minifyUR (vs : List Tok) : List Tok :=
   if toks.any (fun t => t.tt != .unicodeRange) then
     -- the scan returns at the first token that is neither comma nor unicode-range
     vs
-  else intersperseComma ((mergeRanges (sortRanges (toks.map fun t => urBounds t.data))).map urRender)
+  else match toks.mapM (fun t => urBounds t.data) with
+    | none => vs
+    | some rs => intersperseComma ((mergeRanges (sortRanges rs)).map urRender)
 
 /-! ### background-position -/
 
@@ -570,13 +580,16 @@ def annot (t : Tok) : ATok := (t, identOf t)
 def aZero : ATok := (tNum ['0'], [])
 def a100 : ATok := (tPct (S "100%"), [])
 
-/-- `strconv.ParseInt` on the digits of a percentage (stops at the first non-digit; 0 when none) -/
-def parseIntPrefix (s : List Char) : Int :=
-  let (neg, ds) : Bool × List Char :=
-    match s with | '-' :: r => (true, r) | '+' :: r => (false, r) | _ => (false, s)
+/-- `strconv.ParseInt` of the dependency: (value, bytes consumed); stops at the first non-digit, (0, 0) when
+    there is no digit or on int64 overflow -/
+def parseIntPrefix (s : List Char) : Int × Nat :=
+  let (neg, sg, ds) : Bool × Nat × List Char :=
+    match s with | '-' :: r => (true, 1, r) | '+' :: r => (false, 1, r) | _ => (false, 0, s)
   let ds := ds.takeWhile isDig
   let n : Nat := ds.foldl (fun a c => a * 10 + (c.toNat - 48)) 0
-  if 2 ^ 63 ≤ n then 0 else if neg then -(n : Int) else (n : Int)
+  if ds.isEmpty then (0, 0)
+  else if neg then (if n ≤ 2 ^ 63 then (-(n : Int), sg + ds.length) else (0, 0))
+  else (if n < 2 ^ 63 then ((n : Int), sg + ds.length) else (0, 0))
 
 def intDigits (i : Int) : List Char := if i < 0 then '-' :: natDigits i.natAbs else natDigits i.natAbs
 
@@ -591,8 +604,9 @@ def bgPosStep (len j i : Nat) (st : PosState) : PosState :=
   if i + 1 < len && i + 1 != j then
     let nx := st.vs.getD (i + 1) default
     let (vi, nx) : ATok × ATok :=
-      if nx.1.tt == .percentage && (vi.2 == S "right" || vi.2 == S "bottom") then
-        let n := parseIntPrefix nx.1.data.dropLast
+      if nx.1.tt == .percentage && (parseIntPrefix nx.1.data.dropLast).2 == nx.1.data.length - 1 &&
+          (vi.2 == S "right" || vi.2 == S "bottom") then
+        let n := (parseIntPrefix nx.1.data.dropLast).1
         let nx' : ATok := (.mk nx.1.tt (intDigits (100 - n) ++ ['%']) nx.1.args, nx.2)
         if vi.2 == S "right" then ((.mk vi.1.tt (S "left") vi.1.args, S "left"), nx')
         else ((.mk vi.1.tt (S "top") vi.1.args, S "top"), nx')
@@ -663,34 +677,19 @@ def bgPosSeg0 (seg : List ATok) : List ATok × Bool :=
     if seg.length == 1 || seg.length == 2 then bgPosKeywords seg else (seg, false)
   else if seg.length == 1 || seg.length == 2 then bgPosKeywords seg else (seg, false)
 
-/-- the general `start`/`end` loop with the *absolute* index `end-start-1` of the first zero-offset test -/
-def bgPosLoop : Nat → List ATok → Nat → Nat → List ATok
-  | 0, vs, _, _ => vs
-  | fuel + 1, vs, start, e =>
-    if vs.length < e then vs
-    else if e != vs.length && !isComma (vs.getD e default).1 then bgPosLoop fuel vs start (e + 1)
-    else if start == e then bgPosLoop fuel vs (start + 1) (e + 1)
-    else
-      let (vs, e) : List ATok × Nat :=
-        if e - start == 3 || e - start == 4 then
-          let i1 := e - start - 1
-          let (vs, e) := if 2 < e - start && aIsZero (vs.getD i1 default) then (vs.eraseIdx i1, e - 1) else (vs, e)
-          let i2 := start + 1
-          let (vs, e) := if 2 < e - start && aIsZero (vs.getD i2 default) then (vs.eraseIdx i2, e - 1) else (vs, e)
-          let seg := bgPosOffsets ((vs.drop start).take (e - start))
-          (vs.take start ++ seg ++ vs.drop e, start + seg.length)
-        else (vs, e)
-      if e - start == 1 || e - start == 2 then
-        let (seg, stop) := bgPosKeywords ((vs.drop start).take (e - start))
-        let vs' := vs.take start ++ seg ++ vs.drop e
-        if stop then vs' else bgPosLoop fuel vs' (start + seg.length + 1) (start + seg.length + 1)
-      else bgPosLoop fuel vs (e + 1) (e + 1)
+/-- the `start`/`end` loop over comma-separated layers; a single `top`/`bottom` layer ends it (`break`) -/
+def bgPosLayers : List ATok → List ATok → List ATok
+  | cur, [] => if cur.isEmpty then [] else (bgPosSeg0 cur.reverse).1
+  | cur, t :: r =>
+    if isComma t.1 then
+      if cur.isEmpty then t :: bgPosLayers [] r
+      else
+        let (seg, stop) := bgPosSeg0 cur.reverse
+        if stop then seg ++ t :: r else seg ++ t :: bgPosLayers [] r
+    else bgPosLayers (t :: cur) r
 
 /-- `background-position` -/
-def minifyBgPosition (vs : List Tok) : List Tok :=
-  if vs.all (fun t => !isComma t) then
-    if vs.isEmpty then [] else ((bgPosSeg0 (vs.map annot)).1).map (·.1)
-  else (bgPosLoop (2 * vs.length + 4) (vs.map annot) 0 0).map (·.1)
+def minifyBgPosition (vs : List Tok) : List Tok := (bgPosLayers [] (vs.map annot)).map (·.1)
 
 /-! ## minifyProperty -/
 
@@ -747,28 +746,44 @@ def minifyProperty (o : Opts) (prop : List Char) (vs : List Tok) : Option (List 
 
 /-! ## writer -/
 
+/-- `opensComment`: would writing `next` directly behind `prev` glue `/` and `*` into a comment opener? -/
+def opensComment (prev next : List Char) : Bool := prev.getLast? == some '/' && next.head? == some '*'
+
 mutual
 /-- a token inside a function: its lexeme, and for a nested function its arguments and `)` -/
 def writeArg : Tok → List Char
-  | .mk tt data args => data ++ (if tt == .function then writeFunction args ++ [')'] else [])
-/-- `writeFunction` -/
-def writeFunction : List Tok → List Char
-  | [] => []
-  | t :: r => writeArg t ++ writeFunction r
+  | .mk tt data args => data ++ (if tt == .function then writeFunction none args ++ [')'] else [])
+/-- `writeFunction`; `prev` = the argument written last -/
+def writeFunction : Option (TT × List Char) → List Tok → List Char
+  | _, [] => []
+  | prev, .mk tt data args :: r =>
+    (match prev with
+     | some (ptt, pdata) => if ptt != .function && opensComment pdata data then [' '] else []
+     | none => []) ++
+    writeArg (.mk tt data args) ++ writeFunction (some (tt, data)) r
 end
 
 /-- is a space *not* needed before the next value after this token? -/
 def sepAfter (t : Tok) : Bool := t.tt == .comma || isSlash t || t.tt == .function || t.tt == .url
 
-def writeVals : Bool → List Tok → List Char
-  | _, [] => []
-  | prevSep, t :: r =>
-    (if !prevSep && t.tt != .comma && !isSlash t then [' '] else []) ++
-    writeArg t ++ writeVals (sepAfter t) r
+def writeVals : Option Tok → Bool → List Tok → List Char
+  | _, _, [] => []
+  | prev, prevSep, t :: r =>
+    (if !prevSep && t.tt != .comma && !isSlash t then [' ']
+     else match prev with
+       | some p => if p.tt == .delim && opensComment p.data t.data then [' '] else []
+       | none => []) ++
+    writeArg t ++ writeVals (some t) (sepAfter t) r
 
 /-- `writeDeclaration` -/
 def writeDeclaration (vs : List Tok) (important : Bool) : List Char :=
-  writeVals true vs ++ (if important then S "!important" else [])
+  writeVals none true vs ++ (if important then S "!important" else [])
+
+/-- the raw path: components written as they are, `/` and `*` kept apart -/
+def writeRaw : Option (List Char) → List Tok → List Char
+  | _, [] => []
+  | prev, t :: r =>
+    (match prev with | some p => if opensComment p t.data then [' '] else [] | none => []) ++ t.data ++ writeRaw (some t.data) r
 
 /-! ## minifyDeclaration -/
 
@@ -788,7 +803,7 @@ def minifyDeclaration (o : Opts) (prop : List Char) (comps : List Tok) : Option 
   match parseDeclaration comps with
   | none =>
     if prop == S "filter" && comps.length == 11 then none else
-    some ((comps.map (·.data)).flatten ++ (if important then S "!important" else []))
+    some (writeRaw none comps ++ (if important then S "!important" else []))
   | some values =>
     match minifyTokens o prop values with
     | none => none
